@@ -36,8 +36,9 @@ ASSUMPTIONS = [
     "exits never raise an exception that is already part of the in-flight exception's context chain",
 ]
 
-KINDS = ["acm", "scm", "push-async", "push-sync", "push-cm", "push-scm", "callback-async", "callback-sync",
+KINDS = ["nullsub", "acm", "scm", "push-async", "push-sync", "push-cm", "push-scm", "callback-async", "callback-sync",
          "dual", "push-dual"]
+HISTORY_KINDS = [k for k in KINDS if k != "nullsub"]  # (the run-once histories build their own exits)
 BEHAVIOURS = ["falsy", "truthy", "raise", "raise-if-exc", "reraise", "raise-base", "raise-chained", "grumpy-result", "raise-block",
               "raise-stop", "raise-stop-async", "raise-chained-unhashable"]
 
@@ -285,6 +286,16 @@ def entry_objects(i, kind, behaviour, log, block_ref, cb_style="full"):
                 self.fn(*args, **kwargs)
             return False
 
+    if kind == "nullsub":
+        # a subclass of the library's own nullcontext that adds an exit of its own (a "do nothing, but log" manager):
+        # a manager like any other - entered, and exited with whatever leaves the block
+        class LoggingNull(a.nullcontext):
+            async def __aexit__(self, et, ev, tb):
+                record(ev)
+                return behave(i, behaviour, ev)
+
+        cm = LoggingNull(("value", i))
+        return ("enter", cm), ("async", cm)
     if kind == "acm":
         cm = ACM()
         return ("enter", cm), ("async", cm)
@@ -476,8 +487,8 @@ def program_nontrivial(case):
 @st.composite
 def histories(draw, tier):
     op = st.one_of(
-        st.tuples(st.just("register"), st.sampled_from(KINDS), st.sampled_from(["falsy", "falsy", "truthy", "raise", "enter-fails", "raise-base"])),
-        st.tuples(st.just("register"), st.sampled_from(KINDS), st.sampled_from(["falsy", "falsy", "truthy", "raise", "enter-fails", "raise-base"])),
+        st.tuples(st.just("register"), st.sampled_from(HISTORY_KINDS), st.sampled_from(["falsy", "falsy", "truthy", "raise", "enter-fails", "raise-base"])),
+        st.tuples(st.just("register"), st.sampled_from(HISTORY_KINDS), st.sampled_from(["falsy", "falsy", "truthy", "raise", "enter-fails", "raise-base"])),
         st.tuples(st.just("register-registering"), st.sampled_from(["push-async", "push-sync", "callback-sync"])),
         st.tuples(st.just("register-popping"), st.sampled_from(["push-async", "push-sync", "callback-sync"])),
         st.tuples(st.just("register-entering"), st.sampled_from(["push-async", "push-sync"])),
